@@ -152,7 +152,9 @@ class CSSCharsetRule(cssrule.CSSRule):
         else:
             try:
                 codecs.lookup(encoding)
-            except LookupError:
+                # must be a text encoding that supports error handlers
+                ''.encode(encoding, 'replace')
+            except (LookupError, UnicodeError):
                 self._log.error(
                     'CSSCharsetRule: Unknown (Python) encoding %r.' % encoding
                 )
